@@ -20,6 +20,10 @@ DATA = {
     "area_um": [10.0, 20.0, 30.0, 40.0, 50.0, 60.0, NAN, 80.0],
     # finite polygon axes
     "aspect": [1.0, 1.5, 2.0, 2.5, 3.0, 3.5, 4.0, 4.5],
+    # large values, narrow windows (the width of a range is tiny compared
+    # with its limits)
+    "time": [1000.010, 1000.011, 1000.012, 1000.013, 1000.014, 1000.015,
+             1000.016, 1000.017],
     "bright_avg": [5.0, 15.0, 25.0, 35.0, 45.0, 55.0, 65.0, 75.0],
 }
 N = 8
@@ -29,6 +33,9 @@ RANGES = {
     "area_um": [(20.0, 50.0), (60.0, 30.0)],
     # a feature without NaN / inf (sorted after the ones that have them)
     "bright_avg": [(15.0, 55.0), (65.0, 25.0), (35.0, 35.0)],
+    "time": [(1000.0115, 1000.0145),
+             (1000.013, float(np.nextafter(1000.013, 2000.0))),
+             (1000.012, 1000.012)],
 }
 
 # polygons on (aspect, bright_avg); query points are never on a boundary
@@ -310,14 +317,18 @@ def drivers(ctx):
                 # ranges on a feature with NaN and on one without, set
                 # together (edits that are not applied at once)
                 ("nan-and-finite", FilterDriver(
-                    feats=("area_um", "bright_avg"), polys=()), 4, 1)]
+                    feats=("area_um", "bright_avg"), polys=()), 4, 1),
+                ("narrow-windows", FilterDriver(
+                    feats=("time",), polys=()), 3, 1)]
     return [("full", FilterDriver(), 4, 2),
             ("small-deep", FilterDriver(feats=("deform",), polys=(0,)),
              6, 3),
             ("nan-polygon", FilterDriver(feats=("deform", "area_um"),
                                          polys=(2,)), 4, 2),
             ("nan-and-finite", FilterDriver(
-                feats=("area_um", "bright_avg", "deform"), polys=()), 4, 2)]
+                feats=("area_um", "bright_avg", "deform"), polys=()), 4, 2),
+            ("narrow-windows", FilterDriver(
+                feats=("time", "deform"), polys=()), 4, 2)]
 
 
 def run(ctx):
